@@ -8,6 +8,8 @@
 (*   breakpoints in single precision, the statement allows that rounding).                 *)
 (*   Judged: the three laws of the statement on the observed knots and, when the          *)
 (*   documentation pins the breakpoints down (PinnedDown), equality with Knots(...).       *)
+(*   form / aform name the numpy representation of the data / breakpoint arrays (element type, *)
+(*   byte order, stride, read-only); the verdict depends on the values only.                    *)
 (* kind "eval": one evaluation.  t (the knots read back from the object), xs, cs are exact;*)
 (*   obs holds value(xs) per coefficient vector and the mask in the caller's order, and    *)
 (*   intrv / bsplvn of the sorted points; floats abstracted to integers round(v * 2^12).   *)
@@ -31,23 +33,27 @@ VNear(obs, q) == LET S == CHOOSE s \in Scales : Judgeable(q, s) /\ \A u \in Scal
 
 (* ------------------------------ constructor calls ------------------------------ *)
 ArgOf(r) == r.arg
-KnotsVerdict(r) ==
+Msg1 == "D-C08-1 everyn: sample index nx not clamped, the constructor raised (Dev_EveryNUnclamped)"
+Msg2 == "D-C08-2 everyn larger than half the data: a single breakpoint, range not covered (Dev_EveryNSingle)"
+Msg4 == "D-C08-4 everyn on unsorted data: knots not non-decreasing (Dev_EveryNUnsorted)"
+Msg5 == "D-C08-5 the first of several equal highest breakpoints was raised to the highest datum: knots not non-decreasing (Dev_CoverFixFirstMax)"
+KnotsVerdict0(r) ==
   LET nx == Len(r.data)
       lo == QMinSeq(r.data)
       hi == QMaxSeq(r.data)
       t == r.obs.knots
       m == Len(t)
   IN IF r.obs.err
-       THEN IF r.opt = "everyn" /\ Dev_EveryNUnclamped(nx, r.arg) THEN "D-C08-1 everyn: sample index nx not clamped, the constructor raised (Dev_EveryNUnclamped)"
+       THEN IF r.opt = "everyn" /\ Dev_EveryNUnclamped(nx, r.arg) THEN Msg1
             ELSE "constructor raised an exception"
      ELSE IF ~r.obs.finite THEN "non-finite knot"
      ELSE IF r.obs.ncoef # m - r.nord THEN "coefficient vector length is not (number of knots - nord)"
      ELSE IF \E k \in 1..(m - 1) : t[k] > t[k + 1]
-       THEN IF r.opt = "everyn" /\ Dev_EveryNUnsorted(r.data) THEN "D-C08-4 everyn on unsorted data: knots not non-decreasing (Dev_EveryNUnsorted)"
-            ELSE IF Dev_CoverFixFirstMax(r.data, r.opt, ArgOf(r)) THEN "D-C08-5 the first of several equal highest breakpoints was raised to the highest datum: knots not non-decreasing (Dev_CoverFixFirstMax)"
+       THEN IF r.opt = "everyn" /\ Dev_EveryNUnsorted(r.data) THEN Msg4
+            ELSE IF Dev_CoverFixFirstMax(r.data, r.opt, ArgOf(r)) THEN Msg5
             ELSE "knot vector is not non-decreasing"
      ELSE IF m < 2 * r.nord \/ t[r.nord] > FloorScaled(lo, KS) + 2 \/ t[m - r.nord + 1] < FloorScaled(hi, KS) - 2
-       THEN IF r.opt = "everyn" /\ Dev_EveryNSingle(nx, r.arg) THEN "D-C08-2 everyn larger than half the data: a single breakpoint, range not covered (Dev_EveryNSingle)"
+       THEN IF r.opt = "everyn" /\ Dev_EveryNSingle(nx, r.arg) THEN Msg2
             ELSE "breakpoint range (knots nord .. m-nord+1) does not cover the data"
      ELSE IF \E k \in 1..(r.nord - 1) : t[k] > t[r.nord] \/ t[m + 1 - k] < t[m - r.nord + 1]
        THEN "extra knots not outside the breakpoint range"
@@ -57,6 +63,16 @@ KnotsVerdict(r) ==
                ELSE IF \E k \in 1..m : ~Near(t[k], want[k], KS, 2) THEN "knots differ from the documented construction"
                ELSE ""
      ELSE ""
+(* form / aform: the numpy representation in which the data and the bkpt / placed array were    *)
+(* handed over (the values are the same, so is the verdict, except for naming D-C08-7)          *)
+KnotsVerdict(r) ==
+  LET v == KnotsVerdict0(r) IN
+  IF ~(r.form \in Forms /\ RepresentsAll(r.form, r.data) /\ r.aform \in Forms
+       /\ (r.opt \in {"bkpt", "placed"} => RepresentsAll(r.aform, r.arg)))
+    THEN "UNREPRESENTABLE: the harness used a form that cannot carry the values"
+  ELSE IF v # "" /\ Dev_BreakpointArrayInPlace(r.opt, r.aform) /\ v \notin {Msg1, Msg2, Msg4, Msg5}
+    THEN "D-C08-7 integer / read-only breakpoint array used in place: knots truncated, wrapped or constructor raised (Dev_BreakpointArrayInPlace)"
+  ELSE v
 KnotsOut(r) == IF PinnedDown(r.data, r.opt) /\ ~r.obs.err
                THEN [knots |-> Knots(r.data, r.nord, r.spread, r.opt, ArgOf(r))] ELSE [knots |-> <<>>]
 
@@ -96,7 +112,9 @@ SortedVerdict(r, e, s) ==
           ELSE ""
 FirstBad(seq) == LET bad == {k \in 1..Len(seq) : seq[k] # ""} IN IF bad = {} THEN "" ELSE seq[CHOOSE k \in bad : \A l \in bad : k <= l]
 EvalVerdict(r, e) ==
-  IF r.obs.err THEN "evaluation raised an exception"
+  IF ~(r.xform \in Forms /\ RepresentsAll(r.xform, r.xs)) THEN "UNREPRESENTABLE: the harness used a form that cannot carry the points"
+  ELSE IF r.obs.err THEN (IF Dev_EmptyPoints(r.xs) THEN "D-C08-6 evaluation of an empty array of points raised (Dev_EmptyPoints)"
+                          ELSE "evaluation raised an exception")
   ELSE IF Len(r.obs.mask) # Len(r.xs) THEN "result shape"
   ELSE LET pv == FirstBad([a \in 1..Len(r.xs) |-> PointVerdict(r, e, a)])
        IN IF pv # "" THEN pv
